@@ -266,7 +266,7 @@ def check_language(ctx, crate, lang_ty, label):
 def d2(ctx):
     tests = ctx.tests()
     langs = sorted({b.impl_self for b in tests.fns() if (b.impl_trait or "").split("::")[-1] == "Language" and b.name == "weak_shape_inplace"})
-    ctx.floor("languages expanded in the test crate", len(langs), 7)
+    ctx.floor("languages expanded in the test crate", len(langs), 4)
     total = 0
     for l in langs:
         total += check_language(ctx, tests, l, l.split("::")[-1])
